@@ -56,7 +56,11 @@ def run_property(prop, tier, repo=None, seed=0, quiet=False, facts_by_cfg=None):
         ctx.fx_testlib = allf[("chitchat_test", "rlib")]
         ctx.fx_bin = allf[("chitchat_test", "executable")]
         try:
+            from .core import sym as _sym
+            from . import adaptors
+            _sym.ANALYSED_BODIES.clear()
             mod.run(ctx)
+            adaptors.check(ctx, report, prop, set(_sym.ANALYSED_BODIES))
         except AnchorLost as e:
             report.rule("anchor", "anchor resolution")
             report.violation("%s/anchor-lost/%s" % (prop, e.role), "anchor lost: %s" % e)
